@@ -98,6 +98,8 @@ impl Prop for C07 {
             explicit_gate: true,
             flushes: vec![],
             buffered: false,
+            gate_calls: vec![],
+            trace: false,
             inbound,
             reads,
             writes: vec![],
@@ -206,6 +208,8 @@ impl Prop for C07 {
             explicit_gate: true,
             flushes,
             buffered,
+            gate_calls: vec![],
+            trace: false,
             inbound,
             reads,
             writes,
